@@ -126,6 +126,17 @@ let () =
                 | Some (c, r) -> (if c = [] then "-" else String.concat "" (List.map (fun s -> String.make 1 (ch_of s)) c)) ^ " " ^
                                  (if r = [] then "-" else String.concat "" (List.map (fun s -> String.make 1 (ch_of s)) r))) in
               Printf.printf "A %s %s | %s\n" id (if ls = [] then "EMPTY" else String.concat " " (List.map show ls)) back)
+         | "section", items ->
+           (* items: name value name value ... (names %-encoded) -> the lines of one section, %-encoded, blank separated *)
+           let rec pairs = function
+             | n :: v :: r -> (chars_of_string (dec n), q_raw v) :: pairs r
+             | [] -> [] | _ -> failwith "section arity" in
+           let ls = print_section (pairs items) in
+           Printf.printf "A %s %s\n" id (if ls = [] then "EMPTY" else String.concat " " (List.map (fun l -> enc (string_of_chars l)) ls))
+         | "parseline", [ v; l ] ->
+           (match parse_line (v = "1") (chars_of_string (dec l)) with
+            | None -> Printf.printf "A %s NONE\n" id
+            | Some (nm, q) -> Printf.printf "A %s %s %s\n" id (enc (string_of_chars nm)) (show_q q))
          | _ -> Printf.printf "A %s UNKNOWN-QUERY\n" id)
       with Failure m -> Printf.printf "A %s PARSE-ERROR %s\n" id m);
       flush stdout; loop ()
